@@ -123,10 +123,65 @@ func genDocTables(repo string) (string, error) {
 
 type fmTranslator struct {
 	file   *ast.File
-	param  string            // name of the byte-array parameter
-	result string            // name of the named bool result ("" if none)
-	width  int               // array length
-	funcs  map[string]string // already translated functions: Go name -> Coq name
+	param  string              // name of the byte-array parameter
+	result string              // name of the named bool result ("" if none)
+	width  int                 // array length
+	funcs  map[string]string   // already translated functions: Go name -> Coq name
+	env    map[string]ast.Expr // locals assigned once (x := <expression over the array>) and named constants: replaced by their definitions
+	consts *constEnv           // package-level constants
+	extra  *[]string           // definitions of helper predicates translated on demand (emitted before the caller)
+	depth  int
+}
+
+// subst replaces locals and named constants in an expression by their definitions.
+func (t *fmTranslator) subst(e ast.Expr) ast.Expr {
+	switch x := e.(type) {
+	case *ast.Ident:
+		if x.Name == t.param || x.Name == t.result || x.Name == "true" || x.Name == "false" {
+			return e
+		}
+		if d, ok := t.env[x.Name]; ok {
+			return &ast.ParenExpr{X: d}
+		}
+		if t.consts != nil {
+			if _, isConst := t.consts.specs[x.Name]; isConst {
+				if v, err := t.consts.eval(x); err == nil {
+					switch v.Kind() {
+					case constant.Int:
+						return &ast.BasicLit{Kind: token.INT, Value: v.ExactString()}
+					case constant.String:
+						return &ast.BasicLit{Kind: token.STRING, Value: strconv.Quote(constant.StringVal(v))}
+					}
+				}
+			}
+		}
+		return e
+	case *ast.ParenExpr:
+		return &ast.ParenExpr{X: t.subst(x.X)}
+	case *ast.UnaryExpr:
+		return &ast.UnaryExpr{Op: x.Op, X: t.subst(x.X)}
+	case *ast.BinaryExpr:
+		return &ast.BinaryExpr{X: t.subst(x.X), Op: x.Op, Y: t.subst(x.Y)}
+	case *ast.IndexExpr:
+		return &ast.IndexExpr{X: x.X, Index: t.subst(x.Index)}
+	case *ast.SliceExpr:
+		ne := *x
+		if x.Low != nil {
+			ne.Low = t.subst(x.Low)
+		}
+		if x.High != nil {
+			ne.High = t.subst(x.High)
+		}
+		return &ne
+	case *ast.CallExpr:
+		ne := *x
+		ne.Args = nil
+		for _, a := range x.Args {
+			ne.Args = append(ne.Args, t.subst(a))
+		}
+		return &ne
+	}
+	return e
 }
 
 type trErr struct{ msg string }
@@ -152,6 +207,13 @@ func intLit(e ast.Expr) (int64, bool) {
 
 // byteIndex recognises ip[<const>]
 func (t *fmTranslator) byteIndex(e ast.Expr) (int, bool) {
+	for {
+		pe, isParen := e.(*ast.ParenExpr)
+		if !isParen {
+			break
+		}
+		e = pe.X
+	}
 	ix, ok := e.(*ast.IndexExpr)
 	if !ok {
 		return 0, false
@@ -216,7 +278,18 @@ func strLit(e ast.Expr) (string, bool) {
 	return s, true
 }
 
+func unparen(e ast.Expr) ast.Expr {
+	for {
+		pe, isParen := e.(*ast.ParenExpr)
+		if !isParen {
+			return e
+		}
+		e = pe.X
+	}
+}
+
 func (t *fmTranslator) cmp(op token.Token, l, r ast.Expr, n ast.Node) string {
+	l, r = unparen(l), unparen(r)
 	// normalise constant-on-the-left
 	if _, isConst := intLit(l); isConst {
 		switch op {
@@ -262,7 +335,7 @@ func (t *fmTranslator) cmp(op token.Token, l, r ast.Expr, n ast.Node) string {
 	}
 	// ip[i]&m == v
 	if be, isBin := l.(*ast.BinaryExpr); isBin && be.Op == token.AND {
-		x, m := be.X, be.Y
+		x, m := unparen(be.X), unparen(be.Y)
 		if _, ok := intLit(x); ok {
 			x, m = m, x
 		}
@@ -321,9 +394,13 @@ func (t *fmTranslator) cmp(op token.Token, l, r ast.Expr, n ast.Node) string {
 
 // expr translates a boolean expression; okv is the current symbolic value of the named result.
 func (t *fmTranslator) expr(e ast.Expr, okv string) string {
+	return t.expr1(t.subst(e), okv)
+}
+
+func (t *fmTranslator) expr1(e ast.Expr, okv string) string {
 	switch x := e.(type) {
 	case *ast.ParenExpr:
-		return t.expr(x.X, okv)
+		return t.expr1(x.X, okv)
 	case *ast.Ident:
 		switch x.Name {
 		case "true":
@@ -337,14 +414,14 @@ func (t *fmTranslator) expr(e ast.Expr, okv string) string {
 		t.fail(e, "unsupported identifier %s", x.Name)
 	case *ast.UnaryExpr:
 		if x.Op == token.NOT {
-			return "(Not " + t.expr(x.X, okv) + ")"
+			return "(Not " + t.expr1(x.X, okv) + ")"
 		}
 	case *ast.BinaryExpr:
 		switch x.Op {
 		case token.LOR:
-			return "(Or " + t.expr(x.X, okv) + " " + t.expr(x.Y, okv) + ")"
+			return "(Or " + t.expr1(x.X, okv) + " " + t.expr1(x.Y, okv) + ")"
 		case token.LAND:
-			return "(And " + t.expr(x.X, okv) + " " + t.expr(x.Y, okv) + ")"
+			return "(And " + t.expr1(x.X, okv) + " " + t.expr1(x.Y, okv) + ")"
 		case token.EQL, token.NEQ, token.LSS, token.LEQ, token.GTR, token.GEQ:
 			return t.cmp(x.Op, x.X, x.Y, e)
 		}
@@ -353,6 +430,17 @@ func (t *fmTranslator) expr(e ast.Expr, okv string) string {
 		if id, ok := x.Fun.(*ast.Ident); ok && len(x.Args) == 1 {
 			if arg, isId := x.Args[0].(*ast.Ident); isId && arg.Name == t.param {
 				if coq, known := t.funcs[id.Name]; known {
+					return coq
+				}
+				// a helper predicate over the same array that has not been translated yet
+				if fd := findFunc(t.file, id.Name); fd != nil && t.extra != nil && t.depth < 8 {
+					coq := "gen_" + id.Name
+					fm, err := translateBytePredWith(t.file, id.Name, t.funcs, t.consts, t.extra, t.depth+1)
+					if err != nil {
+						t.fail(e, "helper %s", err.Error())
+					}
+					*t.extra = append(*t.extra, fmt.Sprintf("Definition %s : fm :=\n  %s.\n\n", coq, fm))
+					t.funcs[id.Name] = coq
 					return coq
 				}
 			}
@@ -380,7 +468,62 @@ func (t *fmTranslator) stmts(list []ast.Stmt, okv string) string {
 			t.fail(s, "multiple results")
 		}
 		return t.expr(s.Results[0], okv)
+	case *ast.DeclStmt:
+		gd, isGen := s.Decl.(*ast.GenDecl)
+		if !isGen || gd.Tok != token.CONST {
+			t.fail(s, "unsupported declaration")
+		}
+		local := &constEnv{specs: map[string]ast.Expr{}}
+		if t.consts != nil {
+			for k, v := range t.consts.specs {
+				local.specs[k] = v
+			}
+		}
+		for _, sp := range gd.Specs {
+			if vs, isVS := sp.(*ast.ValueSpec); isVS {
+				for _, nm := range vs.Names {
+					if _, clash := t.env[nm.Name]; clash {
+						t.fail(s, "constant %s hides a local", nm.Name)
+					}
+					if _, again := local.specs[nm.Name]; again {
+						t.fail(s, "constant %s is declared more than once", nm.Name)
+					}
+				}
+			}
+		}
+		addConstSpecs(local.specs, gd)
+		t.consts = local
+		return t.stmts(rest, okv)
 	case *ast.AssignStmt:
+		if s.Tok == token.DEFINE && len(s.Lhs) == len(s.Rhs) {
+			// x := <expression>: a local that is never assigned again (checked: any later plain
+			// assignment to something other than the named result is refused below)
+			defs := make([]ast.Expr, len(s.Rhs))
+			for i := range s.Rhs {
+				defs[i] = t.subst(s.Rhs[i])
+			}
+			for i, l := range s.Lhs {
+				id, isId := l.(*ast.Ident)
+				if !isId || id.Name == t.param || id.Name == t.result {
+					t.fail(s, "unsupported short variable declaration")
+				}
+				if id.Name == "_" {
+					continue
+				}
+				// the environment is not scoped: a name may be bound only once in the whole function
+				// and may not hide a constant (otherwise a later use could mean something else)
+				if _, again := t.env[id.Name]; again {
+					t.fail(s, "local %s is declared more than once", id.Name)
+				}
+				if t.consts != nil {
+					if _, isConst := t.consts.specs[id.Name]; isConst {
+						t.fail(s, "local %s hides a constant", id.Name)
+					}
+				}
+				t.env[id.Name] = defs[i]
+			}
+			return t.stmts(rest, okv)
+		}
 		if len(s.Lhs) != 1 || len(s.Rhs) != 1 || s.Tok != token.ASSIGN {
 			t.fail(s, "unsupported assignment")
 		}
@@ -408,10 +551,53 @@ func (t *fmTranslator) stmts(list []ast.Stmt, okv string) string {
 		}
 		return "(Ite " + c + " " + t.stmts(thenB, okv) + " " + t.stmts(elseB, okv) + ")"
 	case *ast.SwitchStmt:
-		if s.Init != nil || s.Tag == nil {
+		if s.Init != nil {
 			t.fail(s, "unsupported switch form")
 		}
-		i, ok := t.byteIndex(s.Tag)
+		if s.Tag == nil {
+			// switch { case c1, c2: ...; default: ... }  ==  if c1 || c2 {...} else ...
+			var def []ast.Stmt
+			hasDef := false
+			type tclause struct {
+				conds []ast.Expr
+				body  []ast.Stmt
+			}
+			var cls []tclause
+			for _, cc := range s.Body.List {
+				c := cc.(*ast.CaseClause)
+				for _, st := range c.Body {
+					if br, isBr := st.(*ast.BranchStmt); isBr {
+						t.fail(br, "branch statement (%s) in switch", br.Tok)
+					}
+				}
+				if c.List == nil {
+					hasDef, def = true, c.Body
+					continue
+				}
+				cls = append(cls, tclause{c.List, c.Body})
+			}
+			var tail string
+			if hasDef {
+				tail = t.stmts(append(append([]ast.Stmt{}, def...), rest...), okv)
+			} else {
+				tail = t.stmts(rest, okv)
+			}
+			for k := len(cls) - 1; k >= 0; k-- {
+				cond := ""
+				for j := len(cls[k].conds) - 1; j >= 0; j-- {
+					a := t.expr(cls[k].conds[j], okv)
+					if cond == "" {
+						cond = a
+					} else {
+						cond = "(Or " + a + " " + cond + ")"
+					}
+				}
+				body := t.stmts(append(append([]ast.Stmt{}, cls[k].body...), rest...), okv)
+				tail = "(Ite " + cond + "\n    " + body + "\n    " + tail + ")"
+			}
+			return tail
+		}
+		i, ok := t.byteIndex(t.subst(s.Tag))
 		if !ok {
 			t.fail(s, "switch tag is not a byte of the array")
 		}
@@ -436,7 +622,7 @@ func (t *fmTranslator) stmts(list []ast.Stmt, okv string) string {
 			}
 			var vals []int64
 			for _, v := range c.List {
-				n, isConst := intLit(v)
+				n, isConst := intLit(t.subst(v))
 				if !isConst {
 					t.fail(v, "non-constant case")
 				}
@@ -472,6 +658,10 @@ func (t *fmTranslator) stmts(list []ast.Stmt, okv string) string {
 }
 
 func translateBytePred(f *ast.File, name string, funcs map[string]string) (formula string, err error) {
+	return translateBytePredWith(f, name, funcs, nil, nil, 0)
+}
+
+func translateBytePredWith(f *ast.File, name string, funcs map[string]string, consts *constEnv, extra *[]string, depth int) (formula string, err error) {
 	fd := findFunc(f, name)
 	if fd == nil {
 		return "", fmt.Errorf("function %s not found", name)
@@ -493,13 +683,19 @@ func translateBytePred(f *ast.File, name string, funcs map[string]string) (formu
 		return "", fmt.Errorf("%s: parameter is not an array", name)
 	}
 	w, ok := intLit(at.Len)
+	if !ok && consts != nil {
+		if v, cerr := consts.eval(at.Len); cerr == nil {
+			w, ok = constant.Int64Val(constant.ToInt(v))
+		}
+	}
 	if !ok {
-		return "", fmt.Errorf("%s: array length is not a literal", name)
+		return "", fmt.Errorf("%s: array length is not a constant", name)
 	}
 	if el, isId := at.Elt.(*ast.Ident); !isId || el.Name != "byte" {
 		return "", fmt.Errorf("%s: array element is not byte", name)
 	}
-	t := &fmTranslator{file: f, param: fd.Type.Params.List[0].Names[0].Name, width: int(w), funcs: funcs}
+	t := &fmTranslator{file: f, param: fd.Type.Params.List[0].Names[0].Name, width: int(w), funcs: funcs,
+		env: map[string]ast.Expr{}, consts: consts, extra: extra, depth: depth}
 	if fd.Type.Results == nil || len(fd.Type.Results.List) != 1 {
 		return "", fmt.Errorf("%s: unexpected results", name)
 	}
@@ -579,26 +775,185 @@ func normalize(n ast.Node) string {
 	return fmt.Sprintf("<%T>", n)
 }
 
+// ---- the exported wrappers, evaluated symbolically ----
+
+type wrapScenario struct{ valid, is4 bool }
+
+func wrapCond(e ast.Expr, ip string, sc wrapScenario) (bool, error) {
+	switch x := e.(type) {
+	case *ast.ParenExpr:
+		return wrapCond(x.X, ip, sc)
+	case *ast.UnaryExpr:
+		if x.Op == token.NOT {
+			v, err := wrapCond(x.X, ip, sc)
+			return !v, err
+		}
+	case *ast.BinaryExpr:
+		if x.Op == token.LAND || x.Op == token.LOR {
+			a, err := wrapCond(x.X, ip, sc)
+			if err != nil {
+				return false, err
+			}
+			b, err := wrapCond(x.Y, ip, sc)
+			if err != nil {
+				return false, err
+			}
+			if x.Op == token.LAND {
+				return a && b, nil
+			}
+			return a || b, nil
+		}
+	case *ast.CallExpr:
+		if sel, ok := x.Fun.(*ast.SelectorExpr); ok && len(x.Args) == 0 {
+			if id, isId := sel.X.(*ast.Ident); isId && id.Name == ip {
+				switch sel.Sel.Name {
+				case "IsValid":
+					return sc.valid, nil
+				case "Is4":
+					return sc.valid && sc.is4, nil
+				case "Is6":
+					return sc.valid && !sc.is4, nil
+				}
+			}
+		}
+	}
+	return false, fmt.Errorf("condition %s is not over IsValid/Is4/Is6", normalize(e))
+}
+
+// wrapEval runs the statements in one scenario and gives the returned expression.
+func wrapEval(list []ast.Stmt, ip string, sc wrapScenario) (ast.Expr, error) {
+	for i, st := range list {
+		rest := list[i+1:]
+		switch s := st.(type) {
+		case *ast.ReturnStmt:
+			if len(s.Results) != 1 {
+				return nil, fmt.Errorf("return without exactly one result")
+			}
+			return s.Results[0], nil
+		case *ast.IfStmt:
+			if s.Init != nil {
+				return nil, fmt.Errorf("if with init statement")
+			}
+			c, err := wrapCond(s.Cond, ip, sc)
+			if err != nil {
+				return nil, err
+			}
+			if c {
+				return wrapEval(append(append([]ast.Stmt{}, s.Body.List...), rest...), ip, sc)
+			}
+			switch e := s.Else.(type) {
+			case nil:
+				continue
+			case *ast.BlockStmt:
+				return wrapEval(append(append([]ast.Stmt{}, e.List...), rest...), ip, sc)
+			case *ast.IfStmt:
+				return wrapEval(append([]ast.Stmt{e}, rest...), ip, sc)
+			}
+			return nil, fmt.Errorf("unsupported else")
+		case *ast.SwitchStmt:
+			if s.Init != nil || s.Tag != nil {
+				return nil, fmt.Errorf("unsupported switch form")
+			}
+			var def []ast.Stmt
+			taken := false
+			for _, cc := range s.Body.List {
+				c := cc.(*ast.CaseClause)
+				if c.List == nil {
+					def = c.Body
+					continue
+				}
+				for _, ce := range c.List {
+					v, err := wrapCond(ce, ip, sc)
+					if err != nil {
+						return nil, err
+					}
+					if v {
+						taken = true
+						break
+					}
+				}
+				if taken {
+					return wrapEval(append(append([]ast.Stmt{}, c.Body...), rest...), ip, sc)
+				}
+			}
+			return wrapEval(append(append([]ast.Stmt{}, def...), rest...), ip, sc)
+		default:
+			return nil, fmt.Errorf("unsupported statement %T", st)
+		}
+	}
+	return nil, fmt.Errorf("control reaches the end of the function")
+}
+
+// wrapperTargets: the wrapper answers false for an invalid address, v4(ip.As4()) for a valid IPv4
+// address and v6(ip.As16()) for any other valid one; the two helper names are returned.
+func wrapperTargets(f *ast.File, name string) (v4, v6 string, err error) {
+	fd := findFunc(f, name)
+	if fd == nil {
+		return "", "", fmt.Errorf("function %s not found", name)
+	}
+	if fd.Type.Params == nil || len(fd.Type.Params.List) != 1 || len(fd.Type.Params.List[0].Names) != 1 {
+		return "", "", fmt.Errorf("%s: unexpected parameters", name)
+	}
+	ip := fd.Type.Params.List[0].Names[0].Name
+	target := func(sc wrapScenario, conv string) (string, error) {
+		e, eerr := wrapEval(fd.Body.List, ip, sc)
+		if eerr != nil {
+			return "", fmt.Errorf("%s: %v", name, eerr)
+		}
+		call, ok := e.(*ast.CallExpr)
+		if !ok || len(call.Args) != 1 {
+			return "", fmt.Errorf("%s: returns %s", name, normalize(e))
+		}
+		id, isId := call.Fun.(*ast.Ident)
+		if !isId || normalize(call.Args[0]) != ip+"."+conv+"()" {
+			return "", fmt.Errorf("%s: returns %s", name, normalize(e))
+		}
+		return id.Name, nil
+	}
+	e, eerr := wrapEval(fd.Body.List, ip, wrapScenario{})
+	if eerr != nil {
+		return "", "", fmt.Errorf("%s: %v", name, eerr)
+	}
+	if normalize(e) != "false" {
+		return "", "", fmt.Errorf("%s: an invalid address gives %s", name, normalize(e))
+	}
+	if v4, err = target(wrapScenario{true, true}, "As4"); err != nil {
+		return "", "", err
+	}
+	if v6, err = target(wrapScenario{true, false}, "As16"); err != nil {
+		return "", "", err
+	}
+	return v4, v6, nil
+}
+
 func genSubnetSetImpl(repo string) (string, error) {
 	_, f, err := parseFile(repo, "netutil/subnetset.go")
 	if err != nil {
 		return "", err
 	}
+	consts := packageConsts(repo, "netutil")
+	// the helper predicates are whatever the exported wrappers dispatch to
+	ls4, ls6, w1 := wrapperTargets(f, "IsLocallyServed")
+	sp4, sp6, w2 := wrapperTargets(f, "IsSpecialPurpose")
+	if w1 != nil || w2 != nil {
+		ls4, ls6, sp4, sp6 = "isLocallyServedV4", "isLocallyServedV6", "isSpecialPurposeV4", "isSpecialPurposeV6"
+	}
 	funcs := map[string]string{}
 	var sb strings.Builder
 	sb.WriteString("(* The loop-free byte predicates of netutil/subnetset.go as formula data. *)\n")
 	sb.WriteString("From Verif Require Import Base.ByteFm.\n\nDefinition subnetset_impl_ok : bool := true.\n\n")
-	for _, name := range []string{"isLocallyServedV4", "isLocallyServedV6", "isSpecialPurposeV4", "isSpecialPurposeV6"} {
-		fm, terr := translateBytePred(f, name, funcs)
+	for _, r := range []struct{ goName, coq string }{{ls4, "gen_isLocallyServedV4"}, {ls6, "gen_isLocallyServedV6"}, {sp4, "gen_isSpecialPurposeV4"}, {sp6, "gen_isSpecialPurposeV6"}} {
+		var extra []string
+		fm, terr := translateBytePredWith(f, r.goName, funcs, consts, &extra, 0)
 		if terr != nil {
 			return "", terr
 		}
-		coq := "gen_" + name
-		fmt.Fprintf(&sb, "Definition %s : fm :=\n  %s.\n\n", coq, fm)
-		funcs[name] = coq
+		for _, d := range extra {
+			sb.WriteString(d)
+		}
+		fmt.Fprintf(&sb, "Definition %s : fm :=\n  %s.\n\n", r.coq, fm)
+		funcs[r.goName] = r.coq
 	}
-	w1 := wrapperShape(f, "IsLocallyServed", "isLocallyServedV4", "isLocallyServedV6")
-	w2 := wrapperShape(f, "IsSpecialPurpose", "isSpecialPurposeV4", "isSpecialPurposeV6")
 	if w1 != nil || w2 != nil {
 		// the byte predicates are still emitted; the wrapper theorem will not check
 		fmt.Fprintf(&sb, "(* wrapper dispatch not recognised: %s %s *)\nDefinition gen_wrappers_ok : bool := false.\n",
